@@ -18,6 +18,8 @@ tables, so an edited match arm breaks a proof obligation.
 The translator understands a small subset of Rust.  Anything else makes it REFUSE: it prints
 `xlate_c37: REFUSED <construct>: <detail>` and exits with status 3 without touching Gen.lean.
 
+The lance sources are read from $VERIF_REPO_ROOT (default /repo); `--repo DIR` overrides it.
+
 usage: xlate_c37.py [--repo DIR] [--out FILE] [--stdout]
 """
 import os
@@ -575,7 +577,7 @@ def render(fl, ve, repo):
 
 def main():
     argv = sys.argv[1:]
-    repo = "/repo"
+    repo = os.environ.get("VERIF_REPO_ROOT") or "/repo"
     out = os.path.join(ROOT, "lean", "LanceModel", "C37", "Gen.lean")
     to_stdout = False
     i = 0
